@@ -67,6 +67,9 @@ def plan(tier, seed):
     # histories: operations on a long-lived scheme object, and schemes created one after another in one process
     cases.append(dict(key="history/object", scheme="history-object", order=0))
     cases.append(dict(key="history/instances", scheme="history-instances", order=0))
+    # user-defined schemes through the base class (nodal Simpson rules on [-1, 1]^d): point / weight tables in every container
+    # and dtype a user may write them in
+    cases.append(dict(key="user-scheme/simpson", scheme="user-scheme", order=3))
     return cases
 
 
@@ -229,12 +232,68 @@ def run_history(case):
     return dict(viol=viol, states=len(nontrivial), transitions=ntrans, traces=len(nontrivial), nontrivial=nontrivial, outcomes=[f"ordered-pairs={len(nontrivial)}"], sample=dict(case=key, configurations=len(cfgs)), digest=f"{len(nontrivial)}/{len(viol)}")
 
 
+def run_user(case):
+    """Scheme(points, weights) given by the user: the d-dimensional Simpson rule (points -1, 0, 1 per axis, weights 1/3, 4/3, 1/3)
+    with the point table as integer array / float64 / float32 array / nested list and the weights as list / array: the scheme
+    keeps the weights it was given, they sum to 2^d, the rule integrates every monomial up to degree 3 per axis, and a region
+    built with it measures the mesh"""
+    import felupe as fem
+
+    key = case["key"]
+    viol, nontrivial = [], []
+    ntrans = 0
+
+    def bad(sub, what, obs, exp, tol=0):
+        viol.append(dict(key=f"{key}/{sub}", what=what, observed=obs, expected=exp, tol=tol))
+
+    w1 = np.array([1.0, 4.0, 1.0]) / 3
+    for dim in (1, 2, 3):
+        P = np.array(list(itertools.product((-1, 0, 1), repeat=dim)))  # integer table
+        W = np.array([np.prod([w1[i + 1] for i in idx]) for idx in P])
+        tables = {"int-array": P.astype(int), "float64-array": P.astype(float), "float32-array": P.astype(np.float32), "nested-list": P.tolist(), "fortran-float": np.asfortranarray(P.astype(float))}
+        weights = {"array": W.copy(), "list": W.tolist()}
+        for (tl, T), (wl, Wg) in itertools.product(tables.items(), weights.items()):
+            sub = f"dim={dim}/points={tl}/weights={wl}"
+            try:
+                q = fem.quadrature.Scheme(T, Wg)
+                qp, qw = np.asarray(q.points, dtype=float), np.asarray(q.weights, dtype=float)
+            except Exception as ex:  # noqa  (a container the base class refuses loudly is not judged)
+                continue
+            ntrans += 1
+            tol = 1e-6 if tl == "float32-array" else 1e-14
+            if qw.shape != W.shape or np.abs(qw - W).max() > 1e-15:
+                bad(sub + "/weights", "the scheme's weights are the weights it was given", qw.tolist()[:6], W.tolist()[:6])
+                continue
+            if abs(qw.sum() - 2.0**dim) > 1e-13:
+                bad(sub + "/sum", "weights sum to the measure of [-1, 1]^d", float(qw.sum()), 2.0**dim)
+            if np.abs(qp - P).max() > tol or np.abs(qp).max() > 1 + tol:
+                bad(sub + "/points", "the scheme's points are the points it was given, inside the closed domain", float(np.abs(qp - P).max()), 0)
+            worst = 0.0
+            for exps in itertools.product(range(4), repeat=dim):
+                worst = max(worst, abs(_integrate(qp, qw, exps) - _cube_exact(exps)))
+            if worst > 1e-13:
+                bad(sub + "/exactness", "Simpson rule integrates every monomial up to degree 3 per axis", float(worst), 0, 1e-13)
+            if dim == 2 and wl == "array" and tl != "nested-list":  # (regions want array tables)
+                mesh = fem.Rectangle(b=(3.0, 2.0), n=(3, 2)).add_midpoints_edges().add_midpoints_faces()
+                try:
+                    r = fem.RegionBiQuadraticQuad(mesh, quadrature=q)
+                    ntrans += 1
+                    if abs(float(r.dV.sum()) - 6.0) > 1e-12:
+                        bad(sub + "/region", "sum of dV of a region built with the user scheme vs the mesh area", float(r.dV.sum()), 6.0, 1e-12)
+                except Exception as ex:  # noqa
+                    bad(sub + "/region/exception", "region with a user scheme raised", repr(ex)[:120], "a region")
+            nontrivial.append(sub)
+    return dict(viol=viol, states=len(nontrivial), transitions=ntrans, traces=len(nontrivial), nontrivial=nontrivial, outcomes=[f"user-schemes={len(nontrivial)}"], sample=dict(case=key))
+
+
 def run(case):
     import felupe as fem
 
     s = case["scheme"]
     if s.startswith("history"):
         return run_history(case)
+    if s == "user-scheme":
+        return run_user(case)
     order = case["order"]
     viol, nontrivial, outcomes = [], [], set()
     ntrans = 0
